@@ -1247,4 +1247,14 @@ def replay(payload, ctx):
             if f['class'] == 'mirror_failure_rate_excessive':
                 return f
         return None
-    return _check_case(case, ctx)
+    f = _check_case(case, ctx)
+    if f:
+        # a stored case that now falls under a known finding (e.g. after its classification was made precise) is not a
+        # violation of the check
+        from core import runner
+        known = {k.get('input_class'): k for k in runner.load_known()
+                 if k.get('property') == ID and k.get('status') == 'known'}
+        if f.get('class') in known:
+            print('KNOWN-FINDING: property=%s %s [%s] (replayed case)' % (ID, known[f['class']].get('id'), f['class']))
+            return None
+    return f
